@@ -731,4 +731,47 @@ impl<K: KdfTrait> Drop for ExporterSecret<K> {
                     // We want to do an authed encap. Do a DH exchange between the sender identity
                     // secret key and the recipient's pubkey
                     let kex_res_identity = <$dhkex as DhKeyExchange>::dh(sk_sender_id, pk_recip)""")]),
+    # ------------------------------------------------------------------ C11
+    dict(name='c11-export-label-exp', expect=[('C11', 'R11.1')],
+         note='Export uses "exp": both sides agree, RFC peers do not',
+         edits=[(AEAD, '.labeled_expand(&self.suite_id, b"sec", exporter_ctx, out_buf)', '.labeled_expand(&self.suite_id, b"exp", exporter_ctx, out_buf)')]),
+    dict(name='c11-base-nonce-as-prk', expect=[('C11', 'R11.1')],
+         note='the (zero-padded) base nonce is used as PRK for exports',
+         edits=[(AEAD, "let hkdf_ctx = SimpleHkdf::<Kdf>::from_prk(self.exporter_secret.0.as_slice()).unwrap();",
+                 "let mut prk = self.exporter_secret.0.clone(); let n = core::cmp::min(prk.len(), self.base_nonce.0.len()); prk[..n].copy_from_slice(&self.base_nonce.0[..n]); let hkdf_ctx = SimpleHkdf::<Kdf>::from_prk(prk.as_slice()).unwrap();")]),
+    dict(name='c11-error-mapped-to-openerror', expect=[('C11', 'R11.1')],
+         note='too-long export requests fail with OpenError',
+         edits=[(AEAD, ".map_err(|_| HpkeError::KdfOutputTooLong)", ".map_err(|_| HpkeError::OpenError)")]),
+    dict(name='c11-export-depends-on-seq', expect=[('C11', 'R11.1')],
+         note='exporter context is prefixed with the sequence number: exports change after each seal',
+         edits=[(AEAD, """        hkdf_ctx
+            .labeled_expand(&self.suite_id, b"sec", exporter_ctx, out_buf)""", """        let sq = self.seq.0.to_be_bytes();
+        let ectx: &[u8] = if self.seq.0 == 0 { exporter_ctx } else { &sq };
+        hkdf_ctx
+            .labeled_expand(&self.suite_id, b"sec", ectx, out_buf)""")]),
+    dict(name='c11-exportonly-encrypt-returns', expect=[('C11', 'R11.5')],
+         note='export-only suite "seals" by returning an empty tag (plaintext sent in the clear)',
+         edits=[("src/aead/export_only.rs", """        panic!("Cannot encrypt with an export-only encryption context!");""", """        Ok(aead::Tag::<Self>::default())""")]),
+    dict(name='c11-receiver-export-swaps-args', expect=[('C11', 'R11.1')],
+         note='receiver-side export passes an empty context: sender and receiver exports differ',
+         edits=[(AEAD, """    pub fn export(&self, info: &[u8], out_buf: &mut [u8]) -> Result<(), HpkeError> {
+        // Pass to AeadCtx
+        self.0.export(info, out_buf)
+    }
+}
+
+/// The HPKE senders's context.""", """    pub fn export(&self, info: &[u8], out_buf: &mut [u8]) -> Result<(), HpkeError> {
+        // Pass to AeadCtx
+        let _ = info;
+        self.0.export(&[], out_buf)
+    }
+}
+
+/// The HPKE senders's context.""")]),
+    dict(name='c11-expand-truncates-long-output', expect=[('C11', 'R11.4')],
+         note='labeled_expand silently succeeds for > 255*Nh bytes by expanding only a prefix',
+         edits=[(KDF, """        let labeled_info = [&len_buf, VERSION_LABEL, suite_id, label, info];
+        self.expand_multi_info(&labeled_info, out)""", """        let labeled_info = [&len_buf, VERSION_LABEL, suite_id, label, info];
+        let n = core::cmp::min(out.len(), 255 * <D as OutputSizeUser>::output_size());
+        self.expand_multi_info(&labeled_info, &mut out[..n])""")]),
 ]
